@@ -4,17 +4,17 @@ import (
 	"golang.org/x/tools/go/ssa"
 )
 
-// Path is an acyclic walk through the CFG from the entry block to a block
-// ending in a Return (or a block with no successors).
+// Path is a walk through the CFG from the entry block to a block ending in a
+// Return (or a block with no successors) that visits each block at most twice
+// (loops are traversed zero or one full iteration plus the exit test).
 type Path []*ssa.BasicBlock
 
-// forEachPath enumerates acyclic entry→exit paths of fn (each block at most once
-// per path, i.e. loops are traversed zero or one time). It stops after max paths
+// forEachPath enumerates entry→exit paths of fn, each block at most twice per path. It stops after max paths
 // and reports whether the enumeration was complete.
 func forEachPath(fn *ssa.Function, max int, f func(p Path)) (complete bool) {
 	n := 0
 	complete = true
-	on := map[*ssa.BasicBlock]bool{}
+	on := map[*ssa.BasicBlock]int{}
 	facts := map[ssa.Value]bool{}
 	var cur Path
 	var walk func(b *ssa.BasicBlock)
@@ -23,7 +23,14 @@ func forEachPath(fn *ssa.Function, max int, f func(p Path)) (complete bool) {
 			complete = false
 			return
 		}
-		on[b] = true
+		on[b]++
+		if on[b] == 2 {
+			// second visit = a loop iteration: condition values are recomputed, so
+			// the branch facts collected so far no longer constrain them.
+			saved := facts
+			facts = map[ssa.Value]bool{}
+			defer func() { facts = saved }()
+		}
 		cur = append(cur, b)
 		if len(b.Succs) == 0 {
 			n++
@@ -40,7 +47,7 @@ func forEachPath(fn *ssa.Function, max int, f func(p Path)) (complete bool) {
 				cond = iff.Cond
 			}
 			for i, s := range b.Succs {
-				if on[s] || seen[s] {
+				if on[s] >= 2 || seen[s] {
 					continue
 				}
 				if cond != nil {
@@ -64,7 +71,7 @@ func forEachPath(fn *ssa.Function, max int, f func(p Path)) (complete bool) {
 			}
 		}
 		cur = cur[:len(cur)-1]
-		on[b] = false
+		on[b]--
 	}
 	if len(fn.Blocks) > 0 {
 		walk(fn.Blocks[0])
